@@ -78,6 +78,8 @@ def run(ck):
             ck.anchor_missing("1", "T2-all-exits", "error edge of register in register_dispatcher")
             continue
         bad = T.t2_all_exits(rd, starts, slot_clearing_sites(rd), removed_edges=ok_e)
+        if bad is not None and some_stores and ok_e and all(T.reachable_only_via(rd, i, ok_e) for i in some_stores):
+            bad = None  # the slot is filled only after the registration succeeded: nothing to clear on the error exit
         ck.verdict(bad is None, "1", "T2-all-exits", rd, "register-failed=>slot-cleared", "every error exit after the slot store clears the slot again", "register_dispatcher can return the registration error with the rejected dispatcher still in its slot (leaked slot; into_source_inner panics; later events reach a source that was never inserted)", site=rd.where(r.bb), path=path_descr(rd, bad) if bad else None)
     ins = ck.body("1", "LoopHandle::insert_source")
     me = T.calls(ins, name="map_err")
